@@ -494,3 +494,77 @@ Proof.
   unfold lookup_cache. intros H1 H2. apply index_of_nth in H1. apply index_of_nth in H2. congruence.
 Qed.
 End Snapshot.
+
+(* ---------- C07: termination (cyclic and self-referential data included) ---------- *)
+Section Termination.
+Variables (c : cfg) (h : heap).
+
+Definition objkids (ob : obj) : nat :=
+  match o_kind ob with
+  | KLeaf => 0 | KDict ch => length ch | KSeq el => Nat.min (max_coll c) (length el) | KObj a => length a
+  end.
+Definition hmax : nat := fold_right Nat.max 0%nat (map objkids h).
+
+Lemma in_le_max l x : In x l -> (x <= fold_right Nat.max 0%nat l)%nat.
+Proof. induction l as [|y r IH]; simpl; intros I; [destruct I|]. destruct I as [->|I]; [lia|]. specialize (IH I). lia. Qed.
+
+Lemma kid_bound_hmax o : (kid_bound c h o <= hmax)%nat.
+Proof.
+  unfold kid_bound, hmax. fold (objkids (hget h o)). unfold hget.
+  destruct (Nat.lt_ge_cases o (length h)) as [L|G].
+  - apply in_le_max. apply in_map. apply nth_In. exact L.
+  - rewrite nth_overflow by exact G. unfold objkids, dummy_obj. simpl. lia.
+Qed.
+
+Lemma pop_length fifo q n r : pop fifo q = Some (n, r) -> length q = S (length r).
+Proof.
+  unfold pop. destruct fifo.
+  - destruct q as [|x q']; intros E; inversion E; subst; reflexivity.
+  - destruct (rev q) as [|x q'] eqn:R; intros E; inversion E; subst.
+    rewrite <- (rev_involutive q), R. simpl. rewrite app_length, !rev_length. simpl. lia.
+Qed.
+
+Definition mu (s : st) : nat := ((S (S (max_vars c)) - length (cache s)) * S hmax + length (queue s))%nat.
+
+Lemma finished_stable fifo s : finished s = true -> step fifo c h s = s.
+Proof.
+  unfold finished, step. destruct (stopped s); [reflexivity|]. simpl. destruct (queue s) eqn:Q; [|discriminate].
+  intros _. unfold pop. destruct fifo; simpl; reflexivity.
+Qed.
+
+Lemma step_progress fifo s :
+  finished s = false -> finished (step fifo c h s) = true \/ (mu (step fifo c h s) < mu s)%nat.
+Proof.
+  intros F. destruct (step_cases c h fifo s) as [I|n q St P Lt|n q v t rs St P Le Lk A|n q t rs St P Le Lk A].
+  - exfalso. unfold finished in F. destruct I as [I|I]; [rewrite I in F; discriminate|].
+    destruct (stopped s); [discriminate|]. simpl in F. destruct (queue s) as [|x q'] eqn:Q; [discriminate|].
+    unfold pop in I. destruct fifo; [discriminate|]. destruct (rev (x :: q')) eqn:R; [|discriminate].
+    apply (f_equal (@length node)) in R. rewrite rev_length in R. discriminate.
+  - left. reflexivity.
+  - right. unfold mu. cbn [cache queue]. apply pop_length in P. lia.
+  - right. unfold mu. cbn [cache queue]. apply pop_length in P. rewrite !app_length. cbn [length].
+    pose proof (children_of_length c h (n_oid n) (n_depth n) (S (length (cache s)))) as K.
+    pose proof (kid_bound_hmax (n_oid n)) as M.
+    replace (S (S (max_vars c)) - (length (cache s) + 1))%nat with ((S (S (max_vars c)) - length (cache s)) - 1)%nat by lia.
+    assert (H2 : (2 <= S (S (max_vars c)) - length (cache s))%nat) by lia.
+    set (X := (S (S (max_vars c)) - length (cache s))%nat) in *.
+    assert (E : ((X - 1) * S hmax + S hmax = X * S hmax)%nat).
+    { destruct X as [|x]; [lia|]. simpl. rewrite Nat.sub_0_r. lia. }
+    lia.
+Qed.
+
+(* the traversal of ANY heap - cyclic, self-referential, arbitrarily shared - is over after mu steps *)
+Theorem run_terminates fifo : forall fuel s, (mu s <= fuel)%nat -> finished (run fuel fifo c h s) = true.
+Proof.
+  induction fuel as [|f IH]; intros s L.
+  - simpl. unfold mu in L. unfold finished. destruct (stopped s); [reflexivity|]. simpl.
+    destruct (queue s); [reflexivity|]. simpl in L. lia.
+  - simpl. destruct (finished s) eqn:F.
+    + rewrite (finished_stable fifo s F). clear L IH. induction f as [|g IHg]; simpl; [exact F|].
+      rewrite (finished_stable fifo s F). exact IHg.
+    + destruct (step_progress fifo s F) as [D|D].
+      * clear IH L. remember (step fifo c h s) as s1. clear Heqs1. induction f as [|g IHg]; simpl; [exact D|].
+        rewrite (finished_stable fifo s1 D). exact IHg.
+      * apply IH. lia.
+Qed.
+End Termination.
